@@ -2,6 +2,13 @@
 PENDING_REASON = "static rules designed in DESIGN.md §3 but the check is not registered yet (under construction)"
 
 CLAIMS = {
+    "C05": {
+        "technique": "static analysis: access-path dependency containment In(value) <= In(key) over the memoised regions (backward slices with control dependence, callee dependency summaries), free-variable and per-config-key containment for the T1 closure, sibling key agreement for the turn-level cache, write/bump pairing and content-derivation of version components, instance-discriminator check for process-global caches, alias/mutation check of cached objects",
+        "text": "Decides: every configuration/context/state access path the cached T2 result (retrieved + residual deltas) depends on is in the dependency set of the stage key, version-covered (index version+uid, encoder type) or on a frozen exemption list; the turn-level key dominates the stage key and depends on agent, clock, state version, index, T1's result and the input; "
+                "every free variable and every cfg_t1 key read in the T1 compute region is part of the T1 key and the store is covered by store.version_etag(gid); get and put use the same key; every graph write reaches an etag re-derivation that hashes node and edge content, the index version only grows; "
+                "process-global caches are keyed by a content-derived version or an instance uid; cached objects are only touched in diagnostic metric fields and the T1 fold never mutates a list that aliases a cached per-graph result.",
+        "note": "Not decided: equality of stage results with caches on vs off over all histories (execution equality); precision is at access-path / variable level (an atom present in both sets is assumed to be used consistently). Cache diagnostics (hit/miss counters, max_delta on a hit) are excluded by the statement itself.",
+    },
     "C10": {
         "technique": "static analysis: interprocedural effect analysis of run_turn restricted to nodes feasible under the dry-run flag, guard facts of commit-side sites, loop-source/sort-key/provenance checks of the commit phase, pairing checks of batch selection, shape check of the back-pressure handler, final-drain must-pass, cross-module arrival-counter obligation, kill-switch sibling check",
         "text": "Decides: which statements of run_turn (directly or through resolved callees) store into the state object on paths feasible in a dry run - each is a violation because the compute phase is handed a ReadOnlyState; T3, GEL, apply and reflection compute are unreachable in a dry run with T4 on; "
